@@ -14,6 +14,7 @@ RULE = ("OSSWUMap::osswu_map (hook re-export) on t in Fq / Fq2: 0, +-1, small va
         "x^((q-3)/4), x^((q^2-9)/16) on 0, 1, -1, random. Every input is classified by the monitor into (which "
         "candidate is square) x (value of g(x1)^((q^2-1)/8) in mu_8 resp. g(x1)^((q-1)/2) in {+-1}: this is what selects "
         "the root-of-unity / eta multiplier) x sgn0(t) x exceptional?, and all 16 (G2) / 4 (G1) cells must be observed")
+RULE += (" " + 'G2 inputs whose IMAGE has a real or purely imaginary y (constructed, both candidates) are required classes too.')
 ASSUMPTIONS = ["RFC 9380 section 6.6.2 straight-line SSWU as transcribed; model square roots by the q = 3 mod 4 exponent / complex method",
                "the multiplier class is the value of g(x1)^((q^2-1)/8) (G2) resp. the quadratic character (G1), computed in the model"]
 EXHAUSTIVE = ["the 2 x 4 x 2 (G2) and 2 x 2 (G1) selection cells (required, see missing_classes)"]
